@@ -59,6 +59,15 @@ fn classify_failure(msg: &str) -> &'static str {
 /// those of the running property are returned.
 fn judge(id: &str, scn: &ParScn, o: &Outcome, st: &mut Stats) -> Vec<Violation> {
     let mut all: Vec<Violation> = vec![];
+    // a concurrent second call is judged like a call of its own
+    if let (Some(ts), Some(th), None) = (&scn.twin, &o.hist.twin, &o.failure) {
+        st.probe("probe.two_calls_at_the_same_time");
+        let o2 = Outcome { hist: (**th).clone(), failure: None, schedule: vec![], diverged: 0 };
+        for mut v in judge(id, ts, &o2, st) {
+            v.detail = format!("[second call running at the same time] {}", v.detail);
+            all.push(v);
+        }
+    }
     let h = &o.hist;
     let mut add = |rule: &str, d: String| all.push(Violation::new(rule, d));
     let generic = matches!(scn.api, Api::Generic | Api::GenericInit);
@@ -375,6 +384,12 @@ fn judge(id: &str, scn: &ParScn, o: &Outcome, st: &mut Stats) -> Vec<Violation> 
     }
     if h.tags.len() > q + 1 {
         add("C16.too_many_identities", format!("{} distinct data sets were seen by reader/worker/consumer with queue length {}", h.tags.len(), q));
+    }
+    if h.scope_pending_max > scn.n_threads.max(1) as usize + 2 {
+        // a crossbeam scope keeps the handle, the result and the stack of every thread that was
+        // spawned in it and not joined until the scope ends: threads per batch make memory grow
+        // with the input
+        add("C16.unjoined_threads_accumulate", format!("{} scoped threads were held unjoined at the same time ({} worker threads requested, {} threads spawned in total): their handles and stacks stay allocated until the call returns", h.scope_pending_max, scn.n_threads, h.spawned));
     }
     if let Some(r) = &h.runahead {
         add("C16.runahead", r.clone());
